@@ -1,0 +1,12 @@
+//go:build verif
+
+package preamble
+
+import "github.com/echovault/sugardb/internal/verifhook"
+
+// verifPoint marks a failpoint / yield point (build tag "verif"; a no-op otherwise).
+func verifPoint(name string) { verifhook.Point(name, 0, nil) }
+
+// verifPointCmd is verifPoint with a database index and the bytes of a command.
+func verifPointCmd(name string, database int, data []byte) { verifhook.Point(name, database, data) }
+
